@@ -154,7 +154,7 @@ invariant
     strictly_inc(lhs@) && strictly_inc(rhs@) ==> merged_ord(out@, lhs@, rhs@, i as int, j as int),
 decreases
     rhs@.len() - j,
-@before `out.push(a_i);`
+@before #1 `out.push(a_i);`
     proof {
         lemma_merge_push_set(out@, lhs@, rhs@, i as int, j as int, a_i, 1, 0);
         lemma_merge_push_ord(out@, lhs@, rhs@, i as int, j as int, a_i, 1, 0);
